@@ -1,4 +1,5 @@
 import Driver.Helpers
+import Driver.Dox
 open Driver
 
 def dispatchHelpers (line : String) : String :=
@@ -8,6 +9,7 @@ def dispatchHelpers (line : String) : String :=
   | "skel" :: args => handleSkel args
   | "fmod" :: args => handleFmod args
   | "shared" :: args => handleShared args
+  | "dox" :: args => handleDox args
   | _ => "bad-op"
 
 partial def loopHelpers (h : IO.FS.Stream) (out : IO.FS.Stream) : IO Unit := do
